@@ -81,7 +81,13 @@ def fill(el, kind, rng=None):
         return el
     a = np.asarray(el)
     k = a.dtype.kind
-    if k in 'fc':
+    if k == 'c':
+        # both parts hostile (a NaN assigned to a complex array only poisons the real part)
+        if kind == 'nan':
+            el[...] = complex(np.nan, np.nan)
+        else:
+            el[...] = 1e3 * ((rng.normal(size=a.shape) + 1j * rng.normal(size=a.shape)) if rng is not None else (1 + 1j) * np.ones(a.shape))
+    elif k == 'f':
         if kind == 'nan':
             el[...] = np.nan
         else:
